@@ -84,6 +84,12 @@ fn panic_recorded_under_c37(known: &[KnownFinding], signature: &str) -> bool {
     })
 }
 
+static RUN_STARTED_MS: std::sync::atomic::AtomicU64 = std::sync::atomic::AtomicU64::new(0);
+static RUN_IDX: std::sync::atomic::AtomicU64 = std::sync::atomic::AtomicU64::new(0);
+static RUN_SEED: std::sync::atomic::AtomicU64 = std::sync::atomic::AtomicU64::new(0);
+/// wall-clock limit of one run (generation excluded); three to five orders of magnitude above what any run takes
+const HANG_LIMIT_MS: u64 = 120_000;
+
 fn verif_dir() -> std::path::PathBuf {
     std::env::var("VERIF_DIR").map(std::path::PathBuf::from).unwrap_or_else(|_| "/verif".into())
 }
@@ -151,12 +157,35 @@ fn cmd_worker(args: &[String]) {
     let mut unknown_sigs: BTreeSet<String> = BTreeSet::new();
     let mut samples: Vec<J> = Vec::new();
     let mut harness_error: Option<String> = None;
+    // liveness of a single run: no run of any property comes near HANG_LIMIT_MS (they take milliseconds, the enumerations a
+    // second or two); a run that exceeds it is reported as a violation of its own ("terminates") instead of hanging the check
+    {
+        let t0 = t0;
+        std::thread::spawn(move || loop {
+            std::thread::sleep(std::time::Duration::from_millis(500));
+            let started = RUN_STARTED_MS.load(std::sync::atomic::Ordering::SeqCst);
+            if started != 0 && (t0.elapsed().as_millis() as u64).saturating_sub(started) > HANG_LIMIT_MS {
+                let o = std::io::stdout();
+                let mut o = o.lock();
+                let _ = writeln!(
+                    o,
+                    "{}",
+                    json!({"t":"hang","run":RUN_IDX.load(std::sync::atomic::Ordering::SeqCst),"run_seed":RUN_SEED.load(std::sync::atomic::Ordering::SeqCst)})
+                );
+                let _ = o.flush();
+                std::process::exit(98);
+            }
+        });
+    }
     let mut idx = offset;
     while idx < runs {
         if t0.elapsed().as_secs_f64() > deadline {
             break;
         }
         let run_seed = prng::derive_seed(seed, salt, idx);
+        RUN_IDX.store(idx, std::sync::atomic::Ordering::SeqCst);
+        RUN_SEED.store(run_seed, std::sync::atomic::Ordering::SeqCst);
+        RUN_STARTED_MS.store((t0.elapsed().as_millis() as u64).max(1), std::sync::atomic::Ordering::SeqCst);
         if announce {
             let mut o = out.lock();
             let _ = writeln!(o, "{}", json!({"t":"start","run":idx,"run_seed":run_seed}));
@@ -164,6 +193,7 @@ fn cmd_worker(args: &[String]) {
         }
         let (cfg, evs) = gen::gen_run(run_seed, &profile);
         let rep = execute_safe(&prop, run_seed, &cfg, &evs);
+        RUN_STARTED_MS.store(0, std::sync::atomic::Ordering::SeqCst);
         evaluations += 1;
         steps += rep.steps;
         clock_span += rep.clock_span.max(0);
@@ -302,17 +332,19 @@ fn cmd_check(args: &[String]) {
             let so = c.stdout.take().unwrap();
             let mut last_start: Option<J> = None;
             let mut done: Option<J> = None;
+            let mut hang: Option<J> = None;
             for line in std::io::BufReader::new(so).lines().map_while(Result::ok) {
                 if let Ok(j) = serde_json::from_str::<J>(&line) {
                     match j["t"].as_str() {
                         Some("start") => last_start = Some(j),
                         Some("done") => done = Some(j),
+                        Some("hang") => hang = Some(j),
                         _ => {}
                     }
                 }
             }
             let status = c.wait().ok();
-            (done, last_start, status)
+            (done, last_start, status, hang)
         }));
     }
     let mut evaluations = 0u64;
@@ -328,8 +360,13 @@ fn cmd_check(args: &[String]) {
     let mut states: BTreeSet<u64> = BTreeSet::new();
     let mut samples: Vec<J> = Vec::new();
     let mut harness_errors: Vec<String> = Vec::new();
+    let mut hangs: Vec<J> = Vec::new();
     for h in handles {
-        let (done, last_start, status) = h.join().expect("join");
+        let (done, last_start, status, hang) = h.join().expect("join");
+        if let Some(hj) = hang {
+            hangs.push(hj);
+            continue;
+        }
         match done {
             Some(d) => {
                 evaluations += d["evaluations"].as_u64().unwrap_or(0);
@@ -397,6 +434,33 @@ fn cmd_check(args: &[String]) {
             continue;
         }
         violation_lines.push((path, rf.clone()));
+    }
+    for hj in &hangs {
+        let run_seed = hj["run_seed"].as_u64().unwrap_or(0);
+        let (cfg, evs) = gen::gen_run(run_seed, &(prop.profile)());
+        let rf = ReplayFile {
+            property: prop.id.to_string(),
+            engine_version: ENGINE_VERSION,
+            run_seed,
+            cfg,
+            original_events: evs.len(),
+            events: evs,
+            expected: world::Violation {
+                property: prop.id.to_string(),
+                oracle: "terminates".into(),
+                signature: "hang:run-exceeded-time-limit".into(),
+                step: 0,
+                detail: format!("run {} did not finish within {} s (runs take milliseconds); not minimised", hj["run"], HANG_LIMIT_MS / 1000),
+            },
+            minimised: false,
+        };
+        let path = rdir.join(format!("{}-{}.json", prop.id, run_seed));
+        let v = serde_json::to_value(&rf).unwrap();
+        if let Err(e) = std::fs::write(&path, serde_json::to_string_pretty(&v).unwrap()) {
+            harness_errors.push(format!("cannot write replay file: {e}"));
+            continue;
+        }
+        violation_lines.push((path, v));
     }
     // evidence
     let fault_fired: BTreeMap<&String, &u64> = stats.iter().filter(|(k, _)| k.starts_with("fault.")).collect();
@@ -517,11 +581,17 @@ fn cmd_replay(args: &[String]) {
         eprintln!("unknown property {}", rf.property);
         std::process::exit(2)
     });
+    let mut prop = prop;
+    let hang_expected = rf.expected.oracle == "terminates";
+    if hang_expected {
+        // re-run under the forked executor, whose watchdog ends a run that does not finish
+        prop.abort_prone = true;
+    }
     let rep = execute_safe(&prop, rf.run_seed, &rf.cfg, &rf.events);
     match rep.verdict {
         Verdict::Violation(v) => {
             println!("replayed: oracle={} signature={} step={}\n{}", v.oracle, v.signature, v.step, v.detail);
-            if v.oracle == rf.expected.oracle && v.signature == rf.expected.signature {
+            if (v.oracle == rf.expected.oracle && v.signature == rf.expected.signature) || (hang_expected && v.signature.starts_with("abort:timeout")) {
                 println!("VIOLATION property={} replay={}", rf.property, path);
                 std::process::exit(1);
             } else {
